@@ -371,6 +371,9 @@ func (w *Worker) runPath(prefix []decision) {
 	e.mu.Unlock()
 	if e.P.verbose {
 		fmt.Fprintf(os.Stderr, "[w%d] path %v -> %s %s (steps %d)\n", w.id, choices(ex.trace), res.End, firstLines(res.Msg, 12), ex.steps)
+		for _, n := range ex.notes {
+			fmt.Fprintf(os.Stderr, "      note: %s\n", n)
+		}
 	}
 }
 
